@@ -66,10 +66,43 @@ pub struct Sched {
 thread_local! {
     static CTX: RefCell<Option<(Arc<Sched>, usize)>> = const { RefCell::new(None) };
     static SUSPEND: Cell<u32> = const { Cell::new(0) };
+    static HOOK_COUNT: Cell<u64> = const { Cell::new(0) };
+    static HOOK_LIMIT: Cell<u64> = const { Cell::new(u64::MAX) };
+    static BUDGET_HIT: Cell<u64> = const { Cell::new(0) };
+}
+
+/// Panic payload raised by the hook when a call exceeds its step allowance (bounded liveness).
+pub struct StepBudget;
+
+/// Scheduling points this thread has passed so far (counted even while scheduling is suspended).
+pub fn hook_count() -> u64 {
+    HOOK_COUNT.with(|c| c.get())
+}
+/// Allows this thread `allow` more scheduling points; the point after that unwinds with `StepBudget`.
+pub fn set_step_allowance(allow: Option<u64>) {
+    let v = match allow {
+        Some(a) => hook_count().saturating_add(a),
+        None => u64::MAX,
+    };
+    HOOK_LIMIT.with(|l| l.set(v));
+}
+/// Returns and clears the number of allowance overruns on this thread.
+pub fn take_budget_hits() -> u64 {
+    BUDGET_HIT.with(|b| b.replace(0))
 }
 
 /// The function installed into `rustfft::verif_hooks::set_sched_hook`.
 pub fn hook(site: u32) {
+    let c = HOOK_COUNT.with(|c| {
+        let v = c.get() + 1;
+        c.set(v);
+        v
+    });
+    if c > HOOK_LIMIT.with(|l| l.get()) {
+        HOOK_LIMIT.with(|l| l.set(u64::MAX));
+        BUDGET_HIT.with(|b| b.set(b.get() + 1));
+        std::panic::resume_unwind(Box::new(StepBudget));
+    }
     if SUSPEND.with(|s| s.get()) != 0 {
         return;
     }
